@@ -26,7 +26,7 @@ REQUIRED = {"C14": {"healthy-package": 200, "fault:duplicate": 30, "fault:defaul
                     "select:none": 30, "period-api": 200, "period-run": 60, "iteration-checked": 2000, "after-disable-silent": 100,
                     "other-modes-silent-checked": 200, "chooser-options-checked": 200, "disable-after-run-silent": 30, "disable-mid-run": 15, "reselected-between-periods": 50, "elapsed-time-checked": 500,
                     "mode-class-imported-from-library-module": 20, "run-period-of-1ms": 5,
-                    "fault-is-a-BaseException": 10, "namespace-package": 30, "run-with-watchdog": 20, "run-iter_fn:none": 10, "run-iter_fn:list": 10, "period-without-disable": 20, "missing-dotted-package": 3, "falsy-mode-object-chosen": 5}}
+                    "fault-is-a-BaseException": 10, "constructor-fails-with-TypeError": 5, "namespace-package": 30, "run-with-watchdog": 20, "run-iter_fn:none": 10, "run-iter_fn:list": 10, "period-without-disable": 20, "missing-dotted-package": 3, "falsy-mode-object-chosen": 5}}
 ASSUMPTIONS = {"C14": ["a mode class re-exported by a second module is not generated (the statement does not say whether it is found twice)",
                        "a mode class that exactly one package module imports from a module outside the package counts as 'found in the modules of the package'",
                        "with several DEFAULT modes and the FMS attached the preselected mode may be any of them",
@@ -102,8 +102,11 @@ def gen_case(rng, uid):
     elif fault == "ctor" and eligible:
         c_ = rng.choice(eligible)[1]
         c_["fail_ctor"] = True
-        if rng.random() < 0.3:
+        r_ = rng.random()
+        if r_ < 0.3:
             c_["fail_kind"] = "base"
+        elif r_ < 0.5:
+            c_["fail_kind"] = "type"           # the constructor fails with a TypeError of its own
         applied = "ctor"
     fms = rng.random() < 0.5
     sel = rng.choice(["chooser-default", "chooser-default", "chooser-sim", "auto-selector", "auto-selector-unknown"])
@@ -260,6 +263,8 @@ def run_case(acc, case):
     case.pop("_undisabled", None)
     root = tempfile.mkdtemp(prefix="vf-sel-")
     sys.path.insert(0, root)
+    if case.get("namespace_pkg") and stable_hash(case["uid"]) % 2:
+        sys.path.insert(0, root)        # the directory is on sys.path twice (PYTHONPATH and the launcher both add it)
     del sel_rt.LOG[:]
     sel_rt.FAIL_CTOR.clear()
     A = analyse(case)
@@ -269,7 +274,7 @@ def run_case(acc, case):
             sel_rt.FAIL_CTOR.add(ident)
             if c.get("fail_kind"):
                 sel_rt.FAIL_KIND[ident] = c["fail_kind"]
-                acc.ev("fault-is-a-BaseException")
+                acc.ev("fault-is-a-BaseException" if c["fail_kind"] == "base" else "constructor-fails-with-TypeError")
     sim = None
     selector = None
     try:
@@ -420,6 +425,7 @@ def run_case(acc, case):
         case.pop("_undisabled", None)
         e.gate = None
         try:
+            sys.path.remove(root)
             sys.path.remove(root)
         except ValueError:
             pass
